@@ -93,8 +93,11 @@ class MathParser:
             else:
                 out = [defs.ActionToken(out[-1].pos)]
         else:
-            if self.parser.parms.math_displayed_simple:
-                txt = self.parser.get_text_direct(out).strip()
+            txt = self.parser.get_text_direct(out).strip()
+            # NB: an error mark, e.g. for a missing end of the equation,
+            # has to remain visible
+            if (self.parser.parms.math_displayed_simple
+                    and self.parser.parms.mark_latex_error not in txt):
                 out = [defs.ActionToken(start_simple),
                         defs.SpaceToken(start_simple, '  ', pos_fix=True),
                         defs.TextToken(start_simple, self.parser.parms.
